@@ -570,6 +570,8 @@ func main() {
 		var wg sync.WaitGroup
 		do := func(cl *redisemu.VerifClient, a ...string) string { r, _ := cl.Dispatch(toArgv(a)); return string(r) }
 		seenIncr := make([]map[string]bool, n)
+		selectGate := make(chan struct{})
+		dbIndex := strconv.Itoa(1 + (round+int(*seed))%15)
 		torn := 0
 		var tornMu sync.Mutex
 		for w := 0; w < n; w++ {
@@ -580,6 +582,10 @@ func main() {
 				cl := vs.NewClient()
 				defer cl.Close()
 				prelude(cl, w+round)
+				// all connections select the same database, never used before, at the same moment: they
+				// must end up in ONE database
+				<-selectGate
+				do(cl, "SELECT", dbIndex)
 				for i := 0; i < m; i++ {
 					seenIncr[w][do(cl, "INCR", "ctr")] = true
 					do(cl, "APPEND", "app", "x")
@@ -604,8 +610,11 @@ func main() {
 				}
 			}(w)
 		}
+		time.Sleep(2 * time.Millisecond)
+		close(selectGate)
 		wg.Wait()
 		cl := vs.NewClient()
+		do(cl, "SELECT", dbIndex)
 		total := n * m
 		distinct := map[string]bool{}
 		for _, s := range seenIncr {
@@ -1248,6 +1257,90 @@ func main() {
 		stats["kill_during_exec_checks"]++
 		b.Close()
 		d.Close()
+	}
+	// ---- part I: a transaction is one unit for everybody else, also when it only reads. Writers rewrite eight
+	// keys with one generation number per transaction; readers read the eight keys in one transaction and must
+	// see one generation.
+	for round := 0; round < *stress && failures == 0 && on("I"); round++ {
+		vs := redisemu.VerifNewStore("")
+		do := func(cl *redisemu.VerifClient, a ...string) string { r, _ := cl.Dispatch(toArgv(a)); return string(r) }
+		keys := []string{"t1", "t2", "t3", "t4", "t5", "t6", "t7", "t8"}
+		stop := make(chan struct{})
+		var wg sync.WaitGroup
+		var badMu sync.Mutex
+		bad := ""
+		for w := 0; w < 2; w++ {
+			wg.Add(1)
+			go func(w int) {
+				defer wg.Done()
+				cl := vs.NewClient()
+				defer cl.Close()
+				for i := 0; ; i++ {
+					select {
+					case <-stop:
+						return
+					default:
+					}
+					v := fmt.Sprintf("%d-%d", w, i)
+					do(cl, "MULTI")
+					for _, k := range keys {
+						do(cl, "SET", k, v)
+					}
+					do(cl, "EXEC")
+				}
+			}(w)
+		}
+		var reads int64
+		for rd := 0; rd < 3; rd++ {
+			wg.Add(1)
+			go func(rd int) {
+				defer wg.Done()
+				cl := vs.NewClient()
+				defer cl.Close()
+				for i := 0; i < 1500; i++ {
+					do(cl, "MULTI")
+					for _, k := range keys {
+						if rd == 2 {
+							do(cl, "STRLEN", k)
+						}
+						do(cl, "GET", k)
+					}
+					r := do(cl, "EXEC")
+					atomic.AddInt64(&reads, 1)
+					parts := strings.Split(r, "\r\n")
+					var vals []string
+					for j := 1; j < len(parts); j++ {
+						if strings.HasPrefix(parts[j], "$") && parts[j] != "$-1" && j+1 < len(parts) {
+							vals = append(vals, parts[j+1])
+							j++
+						} else if parts[j] == "$-1" {
+							vals = append(vals, "<nil>")
+						}
+					}
+					for _, x := range vals {
+						if x != vals[0] {
+							badMu.Lock()
+							if bad == "" {
+								bad = fmt.Sprintf("one transaction of reads saw %v", vals)
+							}
+							badMu.Unlock()
+							return
+						}
+					}
+				}
+			}(rd)
+		}
+		go func() {
+			time.Sleep(1500 * time.Millisecond)
+			close(stop)
+		}()
+		wg.Wait()
+		stats["read_transaction_rounds"]++
+		stats["read_transactions"] += int(reads)
+		if bad != "" {
+			fail("read-transaction", round, []string{"writers: MULTI / SET t1..t8 <generation> / EXEC", "readers: MULTI / GET t1..t8 / EXEC"},
+				bad+": the transaction of another connection was observed half-done (EXEC is one unit for everybody else, whatever it contains)")
+		}
 	}
 	res := map[string]any{"stats": stats, "samples": samples, "failures": failures, "wall_s": time.Since(start).Seconds()}
 	if *out != "" {
